@@ -2,6 +2,7 @@
 use vmon::{Args, Mon};
 
 mod c14;
+mod c15txt;
 mod c20;
 mod histories;
 mod world;
@@ -11,6 +12,7 @@ fn main() {
     let mut mon = Mon::new();
     let (rule, assumptions): (String, Vec<&'static str>) = match args.prop.as_str() {
         "C20" => c20::run(&args, &mut mon),
+        "C15" => c15txt::run(&args, &mut mon),
         "C14" => c14::run(&args, &mut mon),
         "C05" | "C06" | "C07" => histories::run(&args, &mut mon),
         other => panic!("chk-stack does not implement {other}"),
